@@ -3226,6 +3226,16 @@ impl ModuleSourceAndInfo {
       Self::Wasm { source, .. } => source,
     }
   }
+
+  /// The bytes as they were loaded, when they can still be recovered from
+  /// the decoded text.
+  pub fn original_source_bytes(&self) -> Option<Arc<[u8]>> {
+    match self {
+      Self::Json { source, .. } => source.try_get_original_bytes(),
+      Self::Js { source, .. } => source.try_get_original_bytes(),
+      Self::Wasm { source, .. } => Some(source.clone()),
+    }
+  }
 }
 
 pub(crate) struct ParseModuleAndSourceInfoOptions<'a> {
@@ -6626,12 +6636,13 @@ impl<'a, 'graph> Builder<'a, 'graph> {
           && let Some(locker) = &mut self.locker
             && !locker.has_remote_checksum(&specifier)
         {
-          locker.set_remote_checksum(
-            &specifier,
-            LoaderChecksum::new(LoaderChecksum::r#gen(
-              module_source_and_info.source_bytes(),
-            )),
-          );
+          // hash the bytes that were loaded, not the decoded text (which has
+          // e.g. a UTF-8 BOM stripped): the loader verifies against the bytes
+          let checksum = match module_source_and_info.original_source_bytes() {
+            Some(bytes) => LoaderChecksum::r#gen(&bytes),
+            None => LoaderChecksum::r#gen(module_source_and_info.source_bytes()),
+          };
+          locker.set_remote_checksum(&specifier, LoaderChecksum::new(checksum));
         }
 
         let module_slot =
